@@ -73,8 +73,11 @@ def run_shard(shard, ctx):
     seen_def = seen_undef = 0
     for ax_i, ax in enumerate(xs):
         X = all_columns(ax, n)                       # (n, |A|^n) python ints
-        for ay in ys:
+        # word counts: the complete |B|^n columns, and for n = 5 also the first 300 and 257 of them (more than 256 words, not a multiple of 256: any blocking of the word axis has a remainder)
+        yvars = [(ay, None) for ay in ys] + ([(ys[0], 300), (ys[0], 257)] if n == 5 and len(ys[0]) ** n > 300 and ax_i in (0, 3) else [])
+        for ay, trunc in yvars:
             Y = all_columns(ay, n)
+            if trunc: Y = Y[:, :trunc]
             if dist == 'dpa':
                 ref, defined = stats.dpa_ref(X, Y)
                 floor = float(max(1, max(abs(v) for v in ax)))
